@@ -67,7 +67,9 @@ unsafe impl GlobalAlloc for Counting {
 static ALLOC: Counting = Counting;
 
 const CHEAP_BYTES: u64 = 1 << 20;
-const CHEAP_TIME: Duration = Duration::from_millis(50);
+// time is a secondary guard only: 2 s cannot be reached by a rejection even on a heavily loaded machine (a circuit build
+// allocates far more than CHEAP_BYTES, which is the deciding, deterministic measure)
+const CHEAP_TIME: Duration = Duration::from_millis(2000);
 
 // ------------------------------------------------------------------------------------------- observation
 
